@@ -41,7 +41,7 @@ EDITS = [
   "        lines.append('Num samples: ' + locale.format_string('%d',\n                     num_samples, grouping=True))\n        lines.append('Num observations: ' + locale.format_string('%d',\n                     num_observations, grouping=True))",
   "        lines.append('Num samples: ' + locale.format_string('%d',\n                     num_observations, grouping=True))\n        lines.append('Num observations: ' + locale.format_string('%d',\n                     num_samples, grouping=True))"),
  ('report-total-always', 'semantic', '_summarize_table: total and density also in qualitative mode', R, "    if not qualitative:\n        total_count", "    if True:\n        total_count"),
- ('report-last-keys', 'semantic', '_summarize_table: sample metadata keys taken from the LAST entry... written as the observation ones', R,
+ ('report-last-keys', 'semantic', '_summarize_table: the sample key list is read from the observation metadata', R,
   "        sample_md_keys = table.metadata()[0].keys()", "        sample_md_keys = table.metadata(axis='observation')[0].keys()"),
  ('report-no-transpose', 'semantic', '_summarize_table --observations no longer transposes', R, "    if observations:\n        table = table.transpose()\n", "    if observations:\n        table = table\n"),
  ('report-median-is-mean', 'semantic', '_summarize_table: the Median line prints mean_counts', R, "                 median_counts, grouping=True))", "                 mean_counts, grouping=True))"),
